@@ -126,7 +126,7 @@ class CliSim:
                 'subprocess) plus direct grammar probes of geometry_argument / bounds_argument; argv varies bounds strings (signs, decimals, '
                 'underscores, spaces, near misses), GeoJSON strings and files, CSV tables mixing hits / vertex hits / misses with each '
                 '--missing-points policy and custom column / dimension names, each export format explicit or guessed; user faults with real '
-                'files; storage faults at write / open_mfdataset / r+ reopen / text writes / temp dir creation; crash mid-command then the '
+                'files; storage faults at write / open_mfdataset / r+ reopen / text writes / temp dir creation; SIGTERM or crash mid-command then the '
                 're-run with leftover --work_dir and half-written output; repeated invocations in one process. Oracle = the library call in '
                 'its own process. Non-trivial = an invocation exited 0 and its output was compared with the library result, or a user fault '
                 'was judged. Distinct = distinct (convention, per-lifetime (command, argv shape, user fault, fired faults, status) sequence).')
